@@ -393,7 +393,7 @@ def case_program(ctx, rng):
 
 
 def run(ctx):
-    for _, rng in ctx.cases("single", ctx.n(2500, 60000)):
+    for _, rng in ctx.cases("single", ctx.budget(90000, 1500000)):
         ctx.run_case(case_single, ctx, rng)
-    for _, rng in ctx.cases("programs", ctx.n(500, 15000)):
+    for _, rng in ctx.cases("programs", ctx.budget(18000, 300000)):
         ctx.run_case(case_program, ctx, rng)
